@@ -43,7 +43,7 @@ Definition store_shape : bool :=
   (CacheIdx.remove_ncalls_Check =? 1) && (CacheIdx.remove_ncalls_Remove =? 1) && (CacheIdx.remove_ncalls_onEvict =? 1) &&
   (CacheIdx.clear_ncalls_Evict =? 1) && (CacheIdx.clear_ncalls_onEvict =? 1) &&
   (* lru.go *)
-  (CacheLru.check_ncalls_Peek =? 1) &&
+  (CacheLru.prio_cmp_ncalls =? 1) && (CacheLru.check_ncalls_Peek =? 1) &&
   (CacheLru.access_ncalls_Remove =? 1) && (CacheLru.access_ncalls_Add =? 1) && (CacheLru.access_ncalls_Peek =? 0) &&
   (CacheLru.access_ncalls_Len =? 0) && (CacheLru.access_ncalls_Pop =? 0) &&
   (CacheLru.store_ncalls_Add =? 1) &&
@@ -78,9 +78,12 @@ Variable hv : variant.   (* which heapq this is: pinned, repaired, current_varia
 (* ---- prioKey and comparePrio ---- *)
 Record prio := { lastAccess : Z; key : K; value : V }.
 
-(* cmp.Compare on int64 *)
+(* cmp.Compare on int64, of the two expressions comparePrio passes to it (Gen: a.lastAccess and
+   b.lastAccess, in this order) *)
 Definition compare_prio (a b : prio) : Z :=
-  match Z.compare (lastAccess a) (lastAccess b) with Lt => -1 | Eq => 0 | Gt => 1 end.
+  match Z.compare (CacheLru.prio_cmp_left (lastAccess a) (lastAccess b)) (CacheLru.prio_cmp_right (lastAccess a) (lastAccess b)) with
+  | Lt => -1 | Eq => 0 | Gt => 1
+  end.
 
 Definition zero_prio : prio := {| lastAccess := 0; key := kzero; value := vzero |}.
 
